@@ -430,6 +430,37 @@ func MaxAllowedDepth(P, beta int) int {
 	return d
 }
 
+// DepthOracle computes MaxAllowedDepth incrementally for a non-decreasing
+// sequence of P values (it restarts when P drops), multiplying the two powers
+// up step by step instead of exponentiating from scratch.
+type DepthOracle struct {
+	beta     int
+	lastP, d int
+	lhs, rhs *big.Int // 2000^d and (1000+beta)^d for the current d (d = allowed depth - 1 + 1)
+}
+
+// NewDepthOracle returns an oracle for the balance factor.
+func NewDepthOracle(beta int) *DepthOracle { return &DepthOracle{beta: beta, lastP: -1} }
+
+// Allowed returns the largest allowed depth for P (capped at P-1, at least 1).
+func (o *DepthOracle) Allowed(P int) int {
+	if P < o.lastP || o.lhs == nil {
+		o.d, o.lhs, o.rhs = 1, big.NewInt(2000), big.NewInt(int64(1000+o.beta))
+	}
+	o.lastP = P
+	// invariant: depth o.d is allowed; lhs = 2000^d, rhs = (1000+beta)^d; depth d+1 is allowed iff lhs <= P*rhs
+	for o.d+1 < P {
+		t := new(big.Int).Mul(o.rhs, big.NewInt(int64(P)))
+		if o.lhs.Cmp(t) > 0 {
+			break
+		}
+		o.d++
+		o.lhs.Mul(o.lhs, big.NewInt(2000))
+		o.rhs.Mul(o.rhs, big.NewInt(int64(1000+o.beta)))
+	}
+	return o.d
+}
+
 // CheckDepth is the C02 oracle for the current state.
 func (s *Inst) CheckDepth() *mc.Failure {
 	if s.Beta >= 1000 || len(s.Ref) == 0 {
